@@ -17,7 +17,7 @@ from sim.trace import EventLog, canon
 CASE_TIMEOUT = 180
 LEVEL = {"C08": "exploration"}
 PLAN = {"C08": {
-    "quick": {"runs": 5000, "wall_cap": 110, "chunk": 25, "selftest": 8},
+    "quick": {"runs": 16000, "wall_cap": 110, "chunk": 50, "selftest": 8},
     "thorough": {"runs": 150000, "wall_cap": 1500, "chunk": 50, "selftest": 40},
 }}
 RULE = {"C08": (
@@ -171,6 +171,14 @@ def gen_case(prop, seed, tier):
             if sw.random() < 0.4:
                 sa["target_size"] = 2 ** sw.randint(1, 5)
             post["simulated_annealing_opts"] = sa
+    # at most one slicing mechanism per configuration: stacking them asks the later one to slice a tree
+    # that may already have nothing left to slice (an infeasible request, not a defect)
+    if "slicing_reconf_opts" in post:
+        post.pop("slicing_opts", None)
+        if "simulated_annealing_opts" in post:
+            post["simulated_annealing_opts"].pop("target_size", None)
+    elif "slicing_opts" in post and "simulated_annealing_opts" in post:
+        post["simulated_annealing_opts"].pop("target_size", None)
     minimize = sw.choice(OBJECTIVES)
     if minimize == "custom":
         # a plain callable objective has no score_local / score_slice_index /
@@ -523,7 +531,9 @@ def run_case(prop, case):
                     allsurv = []
                     for sj in range(si + 1):
                         pass
-                if not violations and len(a["records"]) == len(b["records"]) and not inj:
+                inj_so_far = any(t[1] is not None for x in sim["results"][: si + 1] for t in x["trace"])
+                same_lengths = all(len(x["records"]) == len(y["records"]) for x, y in zip(sim["results"][: si + 1], ref["results"][: si + 1]))
+                if not violations and same_lengths and not inj_so_far:
                     if abs(a["best"]["score"] - b["best"]["score"]) > 1e-4:
                         V("winner-differs-from-serial-reference",
                           f"search #{si}: best score {a['best']['score']} vs serial {b['best']['score']}")
